@@ -94,3 +94,9 @@ package webtransport
 //@   ensures q.Type == p.Type && q.IsBinary == p.IsBinary && len(q.Data) == len(p.Data) [C11.rt.wt.long.header]
 //@   ensures forall i int :: 0 <= i && i < len(p.Data) ==> q.Data[i] == p.Data[i] [C11.rt.wt.long.data]
 
+
+// ---------------------------------------------------------------------------------------------
+// C16. Lock discipline: which mutex guards which fields (every read/write of a guarded field outside the constructor
+// needs that mutex of the same object; checked in lock mode over every function of the package).
+//@ type ServerTransport
+//@ type ClientTransport
